@@ -17,7 +17,15 @@ R1  antimeridian split (T-ALG + reaching definitions on the CFG + def-use across
     by _calculate_segment_lengths (A measured from element k to the
     antimeridian, B from there to k+1), share(first) ≡ A/(A+B),
     share(second) ≡ B/(A+B), and over every pair of paths the two sum to 1;
-    lengths and both parts use one crossing index.
+    lengths and both parts use one crossing index.  The interface is free: the
+    inputs may arrive in RECORD parameters (a parameter the function only takes
+    apart - `P[i]`, `P.field`, `a, b = P[:2]` -: NamedTuple, dataclass, tuple).
+    The integrated variables are then the component that IS the driver's
+    `integrated_variables` at the call, and every component the share reads
+    (index, lengths, a property such as total_length - opened) is replaced by
+    what the driver put into the record, so a length read from the wrong field,
+    a record built with the lengths swapped and a wrong property are all
+    decided by the same identity.
 R2-R7 are decided on CLOSED VALUES (class Values): a returned component is
     rewritten over the function's parameters as received, the grid axes and the
     arrays of the horizontal intersection - locals replaced by the definition
@@ -61,7 +69,10 @@ R4  part agreement by provenance (T-ROLE): what the antimeridian driver returns
     role of a component is read from its value (what it is cut from), never
     from a name; the two share computations are fed by the two different split
     functions; the latitude / longitude / integrated outputs join the half of
-    the first split with the half of the second, in that order.  That the
+    the first split with the half of the second, in that order.  A component
+    cut from a field of a record parameter has the role of the driver's
+    parameter that field is at the call; split results may be handed on
+    unpacked, by field, or splatted (`*split(..)`, `*astuple(..)`).  That the
     second split scales with the second length is R1 (shares ≡ A/(A+B),
     B/(A+B) through whatever carries the lengths).
 R5  ordering direction (shared with C05-R5): the rows of intersection
@@ -72,7 +83,9 @@ R5  ordering direction (shared with C05-R5): the rows of intersection
 R6  forwarding: at every call into the module made by the three entry points,
     the value bound to lats / lons / integrated_variables closes to the
     caller's own parameter as received (np.asarray(x) / x.copy() are still
-    that value; a filter, a re-ordering, arithmetic is not).
+    that value; a filter, a re-ordering, arithmetic is not).  When the inputs
+    travel in a record, the same holds for every field of the record that an
+    array returned by the callee is cut from.
 R7  cell look-ups (shared with C05-R8): see c05.rule_lookup.
 """
 
@@ -204,6 +217,43 @@ def plain_value(d, name=None):
     return None
 
 
+def unpacked_value(d, name):
+    """expression for the value statement `d` binds `name` to when `d` unpacks a tuple: the element of the display on the
+    right (`a, b = x, y`), or the component `R[lo + i]` when the right side is a name / a slice with constant bounds of a
+    name (`a, b = R[:2]`, `a, b = R`); else None.  (The unpacking itself guarantees that the counts agree.)"""
+    if not isinstance(d, ast.Assign) or len(d.targets) != 1 or not isinstance(d.targets[0], (ast.Tuple, ast.List)):
+        return None
+    path = Values._target_path(d.targets[0], name)
+    if path is None:
+        return None
+    v = d.value
+    for i in path:
+        if isinstance(v, (ast.Tuple, ast.List)):
+            if any(isinstance(x, ast.Starred) for x in v.elts) or i >= len(v.elts):
+                return None
+            v = v.elts[i]
+            continue
+        lo = 0
+        if isinstance(v, ast.Subscript) and isinstance(v.slice, ast.Slice) and v.slice.step is None:
+            lo = 0 if v.slice.lower is None else const_value(v.slice.lower)
+            hi = None if v.slice.upper is None else const_value(v.slice.upper)
+            if not isinstance(lo, int) or isinstance(lo, bool) or lo < 0 or (v.slice.upper is not None and
+                                                                              (not isinstance(hi, int) or isinstance(hi, bool))):
+                return None
+            v = v.value
+        if not isinstance(v, (ast.Name, ast.Subscript, ast.Attribute)) or (isinstance(v, ast.Subscript) and
+                                                                           not isinstance(const_value(v.slice), int)):
+            return None
+        v = ast.copy_location(ast.Subscript(value=tcopy(v), slice=ast.Constant(lo + i), ctx=ast.Load()), d)
+    return v
+
+
+def bound_value(d, name):
+    """the expression statement `d` binds the plain name `name` to (plain assignment or tuple unpacking), else None"""
+    v = plain_value(d, name)
+    return v if v is not None else unpacked_value(d, name)
+
+
 class SeqView:
     PRIMITIVES = {'great_circle_distance'}      # repository functions that stand for themselves (a measured length)
 
@@ -326,6 +376,62 @@ class SeqView:
 
     def returns(self):
         return sorted((n for n in walk_no_nested(self.fn) if isinstance(n, ast.Return)), key=lambda r: r.lineno)
+
+    # ---- record parameters: a parameter that is only ever read by component ----------------------------------------
+    def record_params(self):
+        """parameters (not the receiver) that the function only takes apart: every occurrence is `P[constant]`, `P.field`
+        (not a method call) or the right side of a tuple unpacking (`a, b = P` / `a, b = P[:2]`), and the parameter is never
+        re-bound or written through (`isinstance(P, ..)` / `P is None` tests aside).  Such a parameter is a record of values; its
+        components stand where parameters stand."""
+        if '_recs' not in self.__dict__:
+            recs = {p: True for p in self.params if p not in ('self', 'cls')}
+            up = {}
+            for x in ast.walk(self.fn):
+                for ch in ast.iter_child_nodes(x):
+                    up[id(ch)] = x
+            seen = set()
+
+            def unpacks(st, v):
+                nm = assigned_names(st.targets[0]) if isinstance(st, ast.Assign) and len(st.targets) == 1 and st.value is v else []
+                return bool(nm) and unpacked_value(st, nm[0]) is not None
+            for x in ast.walk(self.fn):
+                if not isinstance(x, ast.Name) or x.id not in recs:
+                    continue
+                seen.add(x.id)
+                par = up.get(id(x))
+                ok = isinstance(x.ctx, ast.Load)
+                if ok and isinstance(par, ast.Subscript) and par.value is x and isinstance(par.ctx, ast.Load):
+                    if isinstance(par.slice, ast.Slice):
+                        ok = unpacks(up.get(id(par)), par)
+                    else:
+                        ok = isinstance(const_value(par.slice), int) and not isinstance(const_value(par.slice), bool)
+                elif ok and isinstance(par, ast.Attribute) and par.value is x and isinstance(par.ctx, ast.Load):
+                    call = up.get(id(par))
+                    ok = not (isinstance(call, ast.Call) and call.func is par) and not par.attr.startswith('_')
+                elif ok and isinstance(par, ast.Call) and call_name(par) == 'isinstance' and par.args and par.args[0] is x:
+                    pass        # a test of what it is does not take it apart (nor alter it)
+                elif ok and isinstance(par, ast.Compare) and len(par.ops) == 1 and isinstance(par.ops[0], (ast.Is, ast.IsNot)) \
+                        and any(isinstance(o, ast.Constant) and o.value is None for o in (par.left, par.comparators[0])):
+                    pass
+                elif ok:
+                    ok = unpacks(par, x)
+                if not ok:
+                    recs[x.id] = False
+            self._recs = {p for p, ok in recs.items() if ok and p in seen}
+        return self._recs
+
+    def component(self, e, at, bound=()):
+        """text of `e` when it is a component (`P[i]`, `P.field`, also nested) of a record parameter as received, else None"""
+        if not isinstance(e, (ast.Subscript, ast.Attribute)):
+            return None
+        b = e
+        while isinstance(b, (ast.Subscript, ast.Attribute)):
+            if isinstance(b, ast.Subscript) and (not isinstance(const_value(b.slice), int) or isinstance(const_value(b.slice), bool)):
+                return None
+            b = b.value
+        if isinstance(b, ast.Name) and b.id not in bound and b.id in self.record_params() and self.is_param(at, b.id):
+            return norm(e)
+        return None
 
     # ---- local helpers (nested def / lambda) are opened by substitution -------------------------------------
     def _callable(self, f, at):
@@ -459,8 +565,8 @@ class SeqView:
             if nm in env or nm in bound or self.is_param(at, nm):
                 continue
             ds = self.defs(at, nm)
-            if len(ds) == 1 and plain_value(ds[0]) is not None:
-                v = self.open_calls(plain_value(ds[0]), ds[0])
+            if len(ds) == 1 and bound_value(ds[0], nm) is not None:
+                v = self.open_calls(bound_value(ds[0], nm), ds[0])
                 env[nm] = v
                 self.scalar_env(v, ds[0], bound, env, depth + 1)
         return env
@@ -528,12 +634,16 @@ class SeqView:
                     if isinstance(plain_value(d), ast.Constant) and plain_value(d).value is None:
                         continue        # "absent": the alternative in which there is no such array
                     out += self.seq(plain_value(d), d, (), depth + 1)
+                elif unpacked_value(d, e.id) is not None:
+                    out += self.seq(unpacked_value(d, e.id), d, (), depth + 1)
                 else:
                     raise Undecided(f'`{e.id}` is bound or altered by `{norm(d)[:60]}` (line {d.lineno})')
             return out
         if isinstance(e, ast.IfExp):
             arms = [x for x in (e.body, e.orelse) if not (isinstance(x, ast.Constant) and x.value is None)]
             return [alt for x in arms for alt in rec(x)]
+        if self.component(e, at, bound) is not None:
+            return [[('whole', self.component(e, at, bound))]]       # an array held by a record parameter, as received
         if isinstance(e, ast.Subscript):
             if norm(e.value) in ('np.r_', 'numpy.r_'):
                 items = e.slice.elts if isinstance(e.slice, ast.Tuple) else [e.slice]
@@ -579,7 +689,7 @@ class SeqView:
 
     def _seq_or_elem(self, x, at, bound, depth):
         if isinstance(x, ast.Subscript) and self._slice_bounds(x.slice, at, bound) is None \
-                and norm(x.value) not in ('np.r_', 'numpy.r_'):
+                and norm(x.value) not in ('np.r_', 'numpy.r_') and self.component(x, at, bound) is None:
             return [[('elem', x, at, bound)]]
         try:
             return self.seq(x, at, bound, depth + 1)
@@ -611,12 +721,14 @@ class SeqView:
         """the tuple-of-arrays parameter that `e` iterates, unaltered"""
         if isinstance(e, ast.Call) and call_name(e) in ('tuple', 'list', 'iter') and len(e.args) == 1 and not e.keywords:
             return self.source(e.args[0], at)
+        if self.component(e, at) is not None:
+            return self.component(e, at)
         if isinstance(e, ast.Name):
             if self.is_param(at, e.id):
                 return e.id
             ds = self.defs(at, e.id)
-            if len(ds) == 1 and plain_value(ds[0]) is not None:
-                return self.source(plain_value(ds[0]), ds[0])
+            if len(ds) == 1 and bound_value(ds[0], e.id) is not None:
+                return self.source(bound_value(ds[0], e.id), ds[0])
         raise Undecided(f'`{norm(e)[:50]}` is not one of the tuple-of-arrays parameters as received')
 
     def coll(self, e, at, depth=0):
@@ -631,11 +743,13 @@ class SeqView:
                 raise Undecided(f'`{e.id}` has no definition reaching line {at.lineno}')
             self._members_untouched(e.id)
             plain = [d for d in ds if plain_value(d, e.id) is not None]
-            if len(plain) == len(ds):
-                return [alt for d in ds for alt in self.coll(plain_value(d), d, depth + 1)]
+            if all(bound_value(d, e.id) is not None for d in ds):
+                return [alt for d in ds for alt in self.coll(bound_value(d, e.id), d, depth + 1)]
             return self._accumulated(e.id, at, ds, plain)
         if isinstance(e, (ast.Tuple, ast.List)) and not e.elts:
             return [('empty',)]
+        if self.component(e, at) is not None:
+            return [('pervar', self.component(e, at), '_member', ast.Name(id='_member', ctx=ast.Load()), at, ('_member',))]
         if isinstance(e, ast.IfExp):
             return self.coll(e.body, at, depth + 1) + self.coll(e.orelse, at, depth + 1)
         if isinstance(e, (ast.GeneratorExp, ast.ListComp)):
@@ -796,7 +910,8 @@ def elem_form(view, part, base):
 
     class T(ast.NodeTransformer):
         def visit_Subscript(self, n):
-            if isinstance(n.value, ast.Name) and n.value.id == base and view._slice_bounds(n.slice, at, bound) is None:
+            if (n.value.id == base if isinstance(n.value, ast.Name) else norm(n.value) == base) \
+                    and view._slice_bounds(n.slice, at, bound) is None:
                 a, off = view.index(n.slice, at, bound)
                 marks[_ph(a, off)] = (a, off)
                 return ast.copy_location(ast.Name(id=_ph(a, off), ctx=ast.Load()), n)
@@ -842,13 +957,30 @@ def show_parts(parts):
 def ret_elts(view, r):
     """components of the tuple returned by `r`: [(expr, statement it is evaluated at)]"""
     v, at = r.value, r
-    for _ in range(4):
+    cut = []
+    for _ in range(6):
         if isinstance(v, ast.Name) and not view.is_param(at, v.id):
             ds = view.defs(at, v.id)
             if len(ds) == 1 and plain_value(ds[0]) is not None:
                 v, at = plain_value(ds[0]), ds[0]
                 continue
+        if isinstance(v, ast.Subscript) and isinstance(v.slice, ast.Slice) and v.slice.step is None and all(
+                b is None or (isinstance(const_value(b), int) and not isinstance(const_value(b), bool))
+                for b in (v.slice.lower, v.slice.upper)):
+            # `record[:6]`: the leading / trailing components of what is built
+            cut.append(slice(None if v.slice.lower is None else const_value(v.slice.lower),
+                             None if v.slice.upper is None else const_value(v.slice.upper)))
+            v = v.value
+            continue
         break
+    elts = ret_elts_of(view, v, at, r)
+    for c in reversed(cut):
+        elts = elts[c]
+    return elts
+
+
+def ret_elts_of(view, v, at, r):
+    """components of the display / record expression `v` evaluated at statement `at` (see ret_elts)"""
     if isinstance(v, ast.Call) and view.prog is not None:
         # a record (NamedTuple / dataclass) built from the parts: components in field order
         from ..resolve import resolve_class_call
@@ -883,7 +1015,7 @@ def guarded_empty(r, name):
     """return statement r is only reached when the tuple parameter `name` is empty"""
     for test, pol, _ in guards_of(r):
         for e, p in conjuncts(test, pol):
-            if isinstance(e, ast.Name) and e.id == name and not p:
+            if isinstance(e, (ast.Name, ast.Subscript, ast.Attribute)) and norm(e) == name and not p:
                 return True
             if isinstance(e, ast.Call) and call_name(e) == 'len' and e.args and norm(e.args[0]) == name and not p:
                 return True
@@ -904,12 +1036,16 @@ def guarded_empty(r, name):
 #   * a call of a repository function whose body is straight-line (assignments, guard clauses that raise, if/else,
 #     no loop / try / with) is replaced by what that function returns, with the arguments substituted - so a value
 #     is followed through helpers, however many there are and wherever they were moved;
+#   * a record built by a repository class is `REC__('<file>::<class>', field=value, ...)`; reading a field selects the
+#     value, reading a read-only property opens the property's straight-line body over the fields; `*record` /
+#     `*astuple(record)` / `*call` of a function whose returned structure is visible passes the components themselves;
 #   * a component of the result of a function that is NOT opened is `RES__(call, 'axis kind')` when the callee's
 #     returned structure names that leaf (by position or field), else `call[i]...`.
 # Nothing is evaluated; forms that are not understood are left as they are written (rules then do not recognise
 # them and say so) or raise Undecided.
 # ---------------------------------------------------------------------------------------------------------------
 ALT, MUT, RES, FLAT = 'ALT__', 'MUT__', 'RES__', 'FLAT__'
+_REC_CLASSES = {}       # tag carried by a REC__ node -> the repository class the record is an instance of
 
 
 def _mk(name, *args):
@@ -1234,12 +1370,47 @@ class Values:
                 return v.keywords[step].value
             if isinstance(step, str) and step in fields:
                 return v.keywords[fields.index(step)].value
+            if isinstance(step, str):
+                return self._property(v, step)
             return None
         if is_mk(v, 'PART__'):
             return self._leaf(v.args[0], tuple(c.value for c in v.args[1:]) + (step,), self.callee_of(v))
         if isinstance(v, ast.Call) and getattr(v, '_ck', None) is not None:
             return self._leaf(v, (step,), self.callee_of(v))
         return None
+
+    def _property(self, rec, name, depth=0):
+        """value of the read-only property `name` of the record `rec` (REC__ of a repository class): what the property's
+        straight-line body returns with the fields of the record in place of `self.<field>`; None when there is no such
+        property or its body reads anything but fields / other properties of the record"""
+        ci = _REC_CLASSES.get(rec.args[0].value) if rec.args and isinstance(rec.args[0], ast.Constant) else None
+        meth = ci.find_method(name) if ci is not None and depth < 4 else None
+        if meth is None or len(meth.decorators()) != 1 or meth.decorators()[0] not in ('property', 'cached_property', 'functools.cached_property'):
+            return None
+        try:
+            ps, body = SeqView._straight_line(meth.node, 'property')
+        except Undecided:
+            return None
+        if len(ps) != 1:
+            return None
+        values, me, ok = self, ps[0], [True]
+
+        class T(ast.NodeTransformer):
+            def visit_Attribute(self, n):
+                if isinstance(n.value, ast.Name) and n.value.id == me:
+                    sel = values._select(rec, n.attr)
+                    if sel is None:
+                        ok[0] = False
+                        return n
+                    return tcopy(sel)
+                return self.generic_visit(n)
+
+            def visit_Name(self, n):
+                if n.id == me:
+                    ok[0] = False
+                return n
+        out = T().visit(tcopy(body))
+        return out if ok[0] else None
 
     def _leaf(self, call, path, callee):
         """the part of the result of the un-opened `call` reached by `path`: RES__(call, role) for a named leaf,
@@ -1282,6 +1453,18 @@ class Values:
                     if isinstance(d, ast.Tuple) or (isinstance(d, ast.Call) and resolve_class_call(self.prog, callee, d) is not None):
                         return build(d, depth + 1)
                     return e.id
+                if isinstance(e, ast.Constant):
+                    return f'<{e.value!r}>'
+                if isinstance(e, ast.Subscript) and isinstance(e.slice, ast.Slice) and e.slice.step is None and all(
+                        b is None or (isinstance(const_value(b), int) and not isinstance(const_value(b), bool))
+                        for b in (e.slice.lower, e.slice.upper)):
+                    whole = build(e.value, depth + 1)       # `record[:n]`: the leading / trailing components, re-numbered
+                    if not isinstance(whole, dict):
+                        return None
+                    items = sorted(whole.items(), key=lambda kv: kv[0][0])
+                    items = items[slice(None if e.slice.lower is None else const_value(e.slice.lower),
+                                        None if e.slice.upper is None else const_value(e.slice.upper))]
+                    return {(i, None): sub for i, (_, sub) in enumerate(items)}
                 if isinstance(e, ast.Tuple) and not any(isinstance(x, ast.Starred) for x in e.elts):
                     out = {}
                     for i, x in enumerate(e.elts):
@@ -1302,6 +1485,8 @@ class Values:
                         if f not in got:
                             return None
                         sub = build(got[f], depth + 1)
+                        if sub is None and leaf_role(f) is not None and not isinstance(got[f], (ast.Tuple, ast.List)):
+                            sub = f         # an array built in place: the field it is stored under names it
                         if sub is None:
                             return None
                         out[(i, f)] = sub
@@ -1310,6 +1495,23 @@ class Values:
             shape = build(rets[0].value)
         self._opened.setdefault(k, {})['shape'] = shape
         return shape
+
+    def _spread(self, v):
+        """the elements `*v` passes when the closed value `v` is a record, or the result of an un-opened repository call
+        whose returned structure (one tuple / record of known length) is visible; else None"""
+        if is_mk(v, 'REC__'):
+            return [k.value for k in v.keywords]
+        if isinstance(v, ast.Call) and call_name(v) in ('tuple', 'list', 'astuple', 'dataclasses.astuple') and len(v.args) == 1 \
+                and not v.keywords:
+            return self._spread(v.args[0])      # the fields of a record, in order (astuple copies them: same values)
+        if isinstance(v, ast.Call) and getattr(v, '_ck', None) is not None and not is_mk(v, 'PART__'):
+            callee = self.callee_of(v)
+            shape = self._result_shape(callee) if callee is not None else None
+            if isinstance(shape, dict) and shape:
+                parts = [self._select(v, i) for i in range(len(shape))]
+                if all(p is not None for p in parts):
+                    return parts
+        return None
 
     # ---- calls ---------------------------------------------------------------------------------------------------
     def _openable(self, callee):
@@ -1351,6 +1553,8 @@ class Values:
             if isinstance(a, ast.Starred) and isinstance(a.value, (ast.Tuple, ast.List)) and \
                     not any(isinstance(x, ast.Starred) for x in a.value.elts):
                 args += a.value.elts
+            elif isinstance(a, ast.Starred) and self._spread(a.value) is not None:
+                args += self._spread(a.value)
             else:
                 args.append(a)
         starred = any(isinstance(a, ast.Starred) for a in args)
@@ -1363,7 +1567,9 @@ class Values:
                 got = dict(zip(fields, args))
                 got.update({k.arg: k.value for k in kws})
                 if len(args) <= len(fields) and set(got) == set(fields):
-                    r = _mk('REC__')
+                    tag = f'{ci.file}::{ci.name}'
+                    _REC_CLASSES[tag] = ci
+                    r = _mk('REC__', ast.Constant(tag))
                     r.keywords = [ast.keyword(arg=f, value=got[f]) for f in fields]
                     return r
             callee = None
@@ -1703,6 +1909,79 @@ def split_call(ctx, rule, gc, fn):
     return call, binding
 
 
+class CallSite:
+    """What a split function's parameters - and the components of its record parameters - are at the call the driver
+    makes: `raw[p]` is the argument closed over the driver's own values (see Values), `value(key)` the value of the
+    parameter / component written `key` in the split function (`lats`, `trajectory[5]`, `crossing.first_length`), found by
+    taking the record the driver passes apart.  None when the driver's value does not show the component."""
+
+    def __init__(self, ctx, V, gc, fn, view, call, binding):
+        self.V, self.view, self.fn, self.gc, self.call = V, view, fn, gc, call
+        self.raw = {p: canon(V.close(gc, a_, stmt_of(call))) for p, a_ in binding.items()}
+        self._memo = {}
+
+    def value(self, key):
+        if key not in self._memo:
+            self._memo[key] = self._value(ast.parse(key, mode='eval').body) if isinstance(key, str) else None
+        v = self._memo[key]
+        return tcopy(v) if v is not None else None
+
+    def _value(self, e):
+        if isinstance(e, ast.Name):
+            return self.raw.get(e.id)
+        if isinstance(e, (ast.Subscript, ast.Attribute)):
+            v = self._value(e.value)
+            step = e.attr if isinstance(e, ast.Attribute) else const_value(e.slice)
+            if v is None or isinstance(step, bool) or not isinstance(step, (int, str)):
+                return None
+            return self.V._select(v, step)
+        return None
+
+    def received(self, key):
+        """name of the driver's own parameter that `key` is at the call, as received (value-preserving wrappers and
+        re-tupling allowed); None when it is anything else"""
+        v = self.value(key)
+        if v is None:
+            return None
+        al = [a for a in alts(v)]
+        names = set()
+        for a in al:
+            s_ = strip_casts(a)
+            for _ in range(2):
+                bt = pm_any(['tuple(X_)', 'list(X_)'], s_)
+                if bt is not None:
+                    s_ = strip_casts(bt['X_'])
+            names.add(s_.id if isinstance(s_, ast.Name) and s_.id in self.gc.params else None)
+        return names.pop() if len(names) == 1 else None
+
+    def components(self, at):
+        """{text: expression} of the record-parameter components the split function reads"""
+        out = {}
+        for x in ast.walk(self.fn.node):
+            k = self.view.component(x, at) if isinstance(x, (ast.Subscript, ast.Attribute)) else None
+            if k is not None:
+                out[k] = x
+        return out
+
+    def substitute(self, e, at, prefix):
+        """copy of `e` (an expression of the split function) with every component of a record parameter replaced by its value
+        at the call (names prefixed); Undecided when a component the expression reads is not visible in what the driver passes"""
+        site, view = self, self.view
+
+        class T(ast.NodeTransformer):
+            def visit_Subscript(self, n):
+                k = view.component(n, at)
+                if k is None:
+                    return self.generic_visit(n)
+                v = site.value(k)
+                if v is None:
+                    raise Undecided(f'`{k}` of {site.fn.name}: the record the driver passes (`{show(site.raw.get(_root_name(n)), 60, top=True)}`) '
+                                    'does not show this component')
+                return _rename(v, prefix)
+            visit_Attribute = visit_Subscript
+        return T().visit(tcopy(e))
+
+
 def rule_split_sum(ctx, m):
     try:
         _rule_split_sum(ctx, m)
@@ -1775,11 +2054,8 @@ def _rule_split_sum(ctx, m):
         fn = m.func(qn)
         view = SeqView(fn, prog)
         call, binding = split_call(ctx, 'C04-R1', gc, fn)
-        if IV not in binding:
-            ctx.undecided('C04-R1', fn, IV, 'the split function has no such parameter')
-        env = {}
-        for p, a_ in binding.items():
-            env[p] = _rename(canon(V.close(gc, a_, stmt_of(call))), 'caller__')
+        site = CallSite(ctx, V, gc, fn, view, call, binding)
+        env = {p: _rename(v, 'caller__') for p, v in site.raw.items()}
         returns = view.returns()
         evaluated = []
         for r in returns:
@@ -1790,8 +2066,15 @@ def _rule_split_sum(ctx, m):
                 except Undecided as e:
                     row.append(e)
             evaluated.append(row)
-        pos = {j for row in evaluated for j, alts in enumerate(row) if isinstance(alts, list)
-               and any(a[0] == 'pervar' and a[1] == IV for a in alts)}
+        # the integrated variables inside the split function: its parameter of that name, or - when the inputs travel in a
+        # record - the component of a record parameter that IS the driver's `integrated_variables` at the call
+        srcs = {a[1] for row in evaluated for alts_ in row if isinstance(alts_, list) for a in alts_ if a[0] == 'pervar'}
+        ivsrc = {IV} if IV in binding else {s_ for s_ in srcs if s_ not in binding and site.received(s_) == IV}
+        if not ivsrc:
+            ctx.undecided('C04-R1', fn, IV, 'the split function has no such parameter, and no component of a record it receives is the '
+                          f'driver\'s `{IV}` as received (per-variable parts are built from {sorted(srcs)})')
+        pos = {j for row in evaluated for j, alts_ in enumerate(row) if isinstance(alts_, list)
+               and any(a[0] == 'pervar' and a[1] in ivsrc for a in alts_)}
         if len(pos) != 1:
             why = '; '.join(sorted({str(a) for row in evaluated for a in row if isinstance(a, Undecided) and IV in str(a)}))
             ctx.undecided('C04-R1', fn, 'returned parts', f'{len(pos)} returned components are recognised as built from {IV}'
@@ -1806,39 +2089,57 @@ def _rule_split_sum(ctx, m):
                 ctx.undecided('C04-R1', fn, tag, str(row[pos]))
             for alt in row[pos]:
                 if alt[0] == 'empty':
-                    if not guarded_empty(r, IV):
+                    if not any(guarded_empty(r, s_) for s_ in ivsrc):
                         ctx.undecided('C04-R1', fn, tag, f'returns no integrated arrays on a path where {IV} is not known to be empty')
                     continue
                 _, src, var, expr, at, bound = alt
-                if src != IV:
+                if src not in ivsrc:
                     ctx.ob('C04-R1', fn, f'{tag}: integrated part built from {src}', False,
                            f'the integrated part of the split is computed from `{src}`, not from `{IV}`', line=r.lineno)
                     continue
                 for parts in view.seq(expr, at, bound):
-                    nshare += _check_share(ctx, fn, view, part, tag, r, var, parts, env, want[part], shares[part], kbind)
+                    nshare += _check_share(ctx, fn, view, part, tag, r, var, parts, env, want[part], shares[part], kbind, site)
     ctx.floor('C04-R1', nshare, 2, 'return paths of the two split functions examined for the crossing-segment share')
     # ---- the two parts are cut at the same element the lengths were measured at ---------------------------------------
     ok = len({v for v in kbind.values()}) == 1 and None not in kbind.values()
     ctx.ob('C04-R1', gc, f'lengths and both parts use crossing element {sorted(set(map(str, kbind.values())))}', ok,
            'one crossing index' if ok else 'the lengths are measured at a different element than the one that is split', nontrivial=False)
     # ---- over every pair of paths the two shares add up to one -----------------------------------------------------
-    for d1, s1 in shares['first']:
-        for d2, s2 in shares['second']:
+    for d1, s1, w1 in shares['first']:
+        for d2, s2, _ in shares['second']:
             ok = poly_equal(s1 + s2, normal_form(ast.Constant(1), {}))
             ctx.ob('C04-R1', gc, f'{d1} + {d2} ≡ 1', ok,
                    'with the lengths as returned by _calculate_segment_lengths the two shares sum to one identically' if ok else
-                   'the two shares of the crossing segment sum to ' + re.sub(r'\b(caller|cs)__', '', str(s1 + s2))[:160] + ', not 1', line=gc.node.lineno)
+                   'the two shares of the crossing segment sum to ' + in_lengths(s1 + s2, w1)[:160] + ', not 1', line=gc.node.lineno)
 
 
-def _check_share(ctx, fn, view, part, tag, r, var, parts, env, want, shares, kbind):
+def in_lengths(r, want):
+    """the rational function `r` written over FIRST / SECOND, the two lengths `want` (= X / (FIRST + SECOND)) is made of, when
+    each of them is one measured length; else the function as it is, caller prefixes removed"""
+    txt = str(r)
+    try:
+        for word, e in (('FIRST', want.right.left), ('SECOND', want.right.right)):
+            at = normal_form(e, {}).atoms()
+            if len(at) == 1:
+                txt = txt.replace(next(iter(at)), word)
+    except (AlgebraError, AttributeError):
+        pass
+    txt = re.sub(r'(?<![\w.])1\*', '', txt)
+    return re.sub(r'\b(caller|cs)__', '', txt)
+
+
+def _check_share(ctx, fn, view, part, tag, r, var, parts, env, want, shares, kbind, site=None):
     """one return path of one split function: [kept elements] + [crossing element × share], each exactly once"""
     desc = show_parts(parts)
     elems = [p for p in parts if p[0] == 'elem']
     katoms = index_param(view, [(parts, var)])
-    if len(katoms) != 1 or not katoms <= set(fn.params):
+    comps = site.components(r) if site is not None else {}
+    if len(katoms) != 1 or not katoms <= set(fn.params) | set(comps):
         ctx.undecided('C04-R1', fn, tag, f'`{desc}` is not cut at one index parameter ({sorted(map(str, katoms))})')
     k = next(iter(katoms))
     call_arg = env.get(k)
+    if call_arg is None and k in comps and site.value(k) is not None:
+        call_arg = _rename(site.value(k), 'caller__')
     kbind[part] = show(_rename_back(call_arg), 200, top=True) if call_arg is not None else None
     # (a) the share term is there, once
     if len(elems) != 1:
@@ -1874,6 +2175,8 @@ def _check_share(ctx, fn, view, part, tag, r, var, parts, env, want, shares, kbi
     # (c) the share is this part's own length over the sum of both
     env2 = dict(env)
     env2[ph] = ast.Constant(1)
+    if site is not None and comps:
+        e2 = site.substitute(e2, r, 'caller__')      # what travels in a record is what the driver put there
     try:
         share = normal_form(e2, env2)
         wanted = normal_form(want, {})
@@ -1884,9 +2187,12 @@ def _check_share(ctx, fn, view, part, tag, r, var, parts, env, want, shares, kbi
     txt = re.sub(r'\b(caller|cs)__', '', txt.replace('ONE__ * ', '').replace(' * ONE__', '').replace('ONE__', '1'))
     ctx.ob('C04-R1', fn, f'{tag}: share = {txt[:80]}', oks,
            f'share of the {part} part = its own length over the sum of both lengths' if oks else
-           (f'the {part} part of the crossing segment is scaled by `{txt[:80]}`, which is not the {part} length over the '
+           (f'the {part} part of the crossing segment is scaled by `{txt[:80]}`' +
+            (f' - with what the driver passes, {in_lengths(share, want)[:120]} (FIRST: from the crossing element to the antimeridian, '
+             f'SECOND: from there to the next element) -' if len(in_lengths(share, want)) <= 120 else '') +
+            f' which is not the {part} length over the '
             'sum of both lengths: the two shares no longer add up to the segment value'), line=getattr(elems[0][1], 'lineno', r.lineno))
-    shares.append((f'{part}#{tag[-1]} {txt[:60]}', share))
+    shares.append((f'{part}#{tag[-1]} {txt[:60]}', share, want))
     return 1
 
 
@@ -2545,8 +2851,10 @@ def run_rules(ctx, prop, rules):
         try:
             f()
         except AnalysisError as e:
+            _debug_all(e)
             first = first or e
         except Undecided as e:
+            _debug_all(e)
             first = first or AnalysisError(f'UNDECIDED rule={prop} {GRID} :: {e}')
         except Exception as e:      # a defect of a rule is an analysis failure of that rule, never a verdict
             import traceback
@@ -2554,6 +2862,14 @@ def run_rules(ctx, prop, rules):
             first = first or AnalysisError(f'internal: {type(e).__name__}: {e} ({where.name}:{where.lineno})')
     if first is not None:
         raise first
+
+
+def _debug_all(e):
+    """AEIC_VERIF_DEBUG=1: every rule that could not decide is named on stderr (the run reports the first only)"""
+    import os
+    import sys
+    if os.environ.get('AEIC_VERIF_DEBUG'):
+        print(f'rules: not decided: {e}', file=sys.stderr)
 
 
 def rule_share(ctx, m):
@@ -2732,23 +3048,50 @@ def part_values(ctx):
     return v
 
 
+def cut_from(view, x, at):
+    """what one returned component of a split function is cut from: the array parameter / tuple-of-arrays parameter - or the
+    component of a record parameter (`trajectory[0]`) - all its kept elements come from"""
+    try:
+        sq = view.seq(x, at)
+        bases = {p[1] for parts in sq for p in parts if p[0] in ('slice', 'whole')}
+        if sq and len(bases) == 1:
+            return next(iter(bases))
+        raise Undecided(f'`{norm(x)[:60]}` mixes {sorted(bases)}')
+    except Undecided as first:
+        try:
+            calts = view.coll(x, at)
+        except Undecided:
+            raise first
+        srcs = {a[1] for a in calts if a[0] != 'empty'}
+        if len(srcs) != 1:
+            raise Undecided(f'`{norm(x)[:60]}` is built from {sorted(srcs)}')
+        return srcs.pop()
+
+
 def _split_component_roles(ctx, m, V):
-    """({(part, position): parameter of the split function that component is built from}, {(part, leaf text): position}) -
-    the role of a component of what a split function returns is decided by its value (the way-points / variable it is cut
-    from), not by the name it is returned under"""
-    from .c05 import _role_sequences
+    """({(part, position): role of the component}, {(part, leaf text): position}) - the role of a component of what a split
+    function returns is decided by its value, not by the name it is returned under: the parameter of the split function it is
+    cut from, or - when the inputs travel in a record - the driver's own parameter that the component of the record it is cut
+    from is at the call, as received"""
     by_pos, pos_of = {}, {}
+    gc = m.func(DRIVER_FN)
     for part, qn in SPLITS:
         sp = m.func(qn)
         view = SeqView(sp, ctx.prog)
         rows = [ret_elts(view, r) for r in view.returns()]
         if not rows or len({len(row) for row in rows}) != 1:
             raise Undecided(f'{sp.name} does not return one tuple / record of parts on every path')
+        site = None
         for i in range(len(rows[0])):
             roles = set()
             for row in rows:
                 try:
-                    roles.add(_role_sequences(view, *row[i])[0])
+                    b = cut_from(view, *row[i])
+                    if b not in view.params:
+                        if site is None:
+                            site = CallSite(ctx, grid_values(ctx), gc, sp, view, *split_call(ctx, 'C04-R4', gc, sp))
+                        b = site.received(b)
+                    roles.add(b)
                 except Undecided:
                     roles.add(None)
             by_pos[(part, i)] = roles.pop() if len(roles) == 1 else None
@@ -2920,6 +3263,7 @@ def rule_forwarding(ctx, m, rule, tracked, consequence):
                 if any(p in tracked for p in callee.params):
                     pend.put(rule, fi, f'{callee.name}(…)', (None, 'call with * / ** arguments'))
                 continue
+            n += _record_forwarding(ctx, V, pend, rule, fi, c, callee, bind, tracked, consequence)
             for p, a in bind.items():
                 if p not in tracked or p not in fi.params:
                     continue
@@ -2950,6 +3294,48 @@ def rule_forwarding(ctx, m, rule, tracked, consequence):
     pend.flush()
 
 
+def _record_forwarding(ctx, V, pend, rule, fi, c, callee, bind, tracked, consequence):
+    """the same statement when the inputs travel in a record: every component of a record parameter that one of the arrays
+    the callee returns is cut from is, at the call, one of the caller's own parameters as received.  (A component nothing is
+    cut from - a count, a flag - is not an input that is handed on.)  Returns the number of components judged."""
+    cview = V.view(callee)
+    recs = cview.record_params() & set(bind)
+    if not recs:
+        return 0
+    bases = set()
+    for r in cview.returns():
+        try:
+            elts = ret_elts(cview, r)
+        except Undecided:
+            continue
+        for x, at in elts:
+            try:
+                bases.add(cut_from(cview, x, at))
+            except Undecided:
+                pass
+    site = CallSite(ctx, V, fi, callee, cview, c, bind)
+    n = 0
+    for key in sorted(b for b in bases if isinstance(b, str) and re.split(r'[.\[]', b)[0] in recs and b not in bind):
+        got = site.received(key)
+        if got is not None:
+            if got in tracked:
+                n += 1
+                ctx.ob(rule, fi, f'`{got}` reaches {callee.name} unmodified', True, f'passed through as received (as `{key}`)', line=c.lineno)
+            continue
+        val = site.value(key)
+        if val is None:
+            pend.put(rule, fi, f'{callee.name}({key.split("[")[0].split(".")[0]}=…)',
+                     (None, f'`{key}` is not visible in the record passed (`{show(site.raw.get(re.split(r"[.\[]", key)[0]), 60, top=True)}`)'))
+            continue
+        ment = sorted({x.id for x in ast.walk(val) if isinstance(x, ast.Name) and x.id in tracked and x.id in fi.params})
+        if ment:
+            n += 1
+            ctx.ob(rule, fi, f'`{ment[0]}` reaches {callee.name} unmodified', False,
+                   f'`{ment[0]}` reaches {callee.name} as `{show(val, 70, top=True)}` (in `{key}`) before the cells and shares are '
+                   f'computed: {consequence}', line=c.lineno)
+    return n
+
+
 def view_defs(V, fi, name):
     """statements of `fi` that rebind the parameter `name`"""
     return [st for t, st, how in stores_to(fi.node) for x in ast.walk(t) if isinstance(x, ast.Name) and x.id == name]
@@ -2957,7 +3343,14 @@ def view_defs(V, fi, name):
 
 def run(ctx):
     m = ctx.prog.module(GRID)
-    from .c05 import rule_lookup
+    from .c05 import GridValues, rule_lookup, split_tuple_locals
+    # the same two preparations as in c05.run (R5 / R7 are that module's rules): tuple locals that are only read by position
+    # are taken apart into named locals, and values are closed with the reaching-definition view of aliases
+    for fi in m.functions.values():
+        if '<locals>' not in fi.qualname:
+            split_tuple_locals(fi.node)
+    if '_grid_values' not in ctx.__dict__:
+        ctx._grid_values = GridValues(ctx.prog, keep=(DIST_FN, 'crosses_dateline', SHARE_FN.split('.')[-1], HZ_FN.split('.')[-1]))
     run_rules(ctx, 'C04', [
         lambda: rule_passthrough(ctx, m),
         lambda: rule_split_sum(ctx, m),
